@@ -70,7 +70,13 @@ def gen_case(rng, i, tier):
             ops.append("pcmseekpage 0 %d" % p)
         else:
             t = rng.choice([0, int(tb[-1]) - 1, rng.randrange(0, int(tb[-1]) + 1), int(rng.choice(tb))])
-            ops.append("%s 0 %d" % (rng.choice(["timeseek", "timeseek", "timeseekpage"]), max(0, t)))
+            if rng.random() < 0.35:
+                # inside the last sample of a link: 1/4 .. 9/4 samples before its end
+                t = "le%dq%d" % (rng.randrange(len(lens)), rng.choice([1, 1, 2, 3, 5, 9]))
+                ops.append("tell 0")           # (before the start of the file for an empty first link: refused, nothing moves)
+                ops.append("%s 0 %s" % (rng.choice(["timeseek", "timeseekpage", "timeseekpage"]), t))
+            else:
+                ops.append("%s 0 %d" % (rng.choice(["timeseek", "timeseek", "timeseekpage"]), max(0, t)))
         ops.append("tell 0")
         ops += ["read 0 %d" % rng.choice([1, 64, 4096]) for _ in range(rng.choice([0, 1, 1, 3]))]
     ops.append("clear 0")
@@ -142,8 +148,15 @@ def oracle(d):
             if int(f["tell"]) != last_tell:
                 return "undisturbed: rejected %s moved the position %d -> %s" % (op, last_tell, f["tell"])
         elif name in ("timeseek", "timeseekpage"):
-            ms = int(op.split(" ")[2])
-            t = ms / 1000.0
+            arg = op.split(" ")[2]
+            if arg.startswith("le"):
+                k, qn = (int(x) for x in arg[2:].split("q"))
+                t = 0.0
+                for i2 in range(k + 1):
+                    t += float(lens[i2]) / rates[i2]
+                t -= qn / (4.0 * rates[k])
+            else:
+                t = int(arg) / 1000.0
             if 0 <= t < tb[-1]:
                 if f["rc"] != "0":
                     return "reach: %s failed with %s" % (op, f["rc"])
